@@ -82,13 +82,22 @@ func (l *leaderEpochCache) Assign(epoch uint64, offset int64) error {
 // larger than the provided one or -1 if the current epoch equals the provided
 // one.
 func (l *leaderEpochCache) LastOffsetForLeaderEpoch(epoch uint64) int64 {
+	offset, _ := l.lastOffsetForLeaderEpoch(epoch)
+	return offset
+}
+
+// lastOffsetForLeaderEpoch returns the start offset of the first leader epoch
+// larger than the provided one and true or -1 and false if the current epoch
+// equals the provided one. The bool must be used to tell the two apart since
+// -1 is also the start offset of an epoch which began on an empty log.
+func (l *leaderEpochCache) lastOffsetForLeaderEpoch(epoch uint64) (int64, bool) {
 	l.mu.RLock()
 	defer l.mu.RUnlock()
 	e := l.findEpoch(epoch + 1)
 	if e == nil {
-		return -1
+		return -1, false
 	}
-	return e.startOffset
+	return e.startOffset, true
 }
 
 // LastLeaderEpoch returns the latest leader epoch for the log.
